@@ -120,8 +120,9 @@ def crash_cases(skind, alphabet, maxlen, faults=FAULTS, start=0, minlen=1):
             for fault in faults:
                 for at in range(ln + 1):
                     stalled, evs = expand(steps, fault, at)
-                    out.append(({'skind': skind, 'transport': 'rs' if n % 2 == 0 else 'us',
-                                 'stalled': stalled}, evs))
+                    # short conversations on both transports, longer ones alternately
+                    for tr in (('rs', 'us') if ln <= 2 else (('rs',) if n % 2 == 0 else ('us',))):
+                        out.append(({'skind': skind, 'transport': tr, 'stalled': stalled}, evs))
                     n += 1
     return out
 
@@ -239,13 +240,22 @@ def fmt_obs(o):
 def oracle(cfg, evs, summ, ptimeout):
     """the property, clause by clause, on the implementation's own observations"""
     bad = []
+    if summ.get('spin'):
+        bad.append(('c08:livelock', f'the code under test ran for {W.WATCHDOG_S} s of wall-clock '
+                                    f'time without yielding to the event loop'))
+        return bad
     if summ['stall'] is not None:
         i, kind = summ['stall']
         bad.append((f'c08:{kind.lower()}', f'{kind} at event {i} ({W.ser(evs[i])}): a task would '
                                            f'wait for ever / the loop spins'))
         return bad
     if not summ['closing']:
-        return bad                  # nothing closed, dropped or aborted this connection
+        # nothing closed, dropped or aborted this connection - unless the application asked to
+        asked = [W.ser(e) for e in evs if e[0] in ('AC', 'ACC', 'ACT', 'AB')]
+        if asked:
+            bad.append(('c08:close-ignored', f'{asked[0]} was called but the transport was neither '
+                                             f'closed nor aborted'))
+        return bad
     if not summ['lost_delivered']:
         bad.append(('c08:closed-but-never-lost',
                     'close() was called, the graceful close never completed and no abort() '
@@ -267,7 +277,8 @@ def oracle(cfg, evs, summ, ptimeout):
         elif k in pend and r['kind'] in ('O', 'OB') and r['outcome'] != 'cancelled':
             # not a caller waiting for a response: still blocked *sending* (send buffer full) and
             # its own max_send_delay ran out at this very instant (C15: TaskTimeout + abort)
-            if r['outcome'] == 'TaskTimeout' and r['done_at'] == r['start'] + summ['max_send_delay']:
+            if r['outcome'] == 'TaskTimeout' and r['done_at'] == summ['lost_at'] \
+                    and r['done_at'] == r['start'] + summ['max_send_delay']:
                 continue
             bad.append(('c08:waiter-not-cancelled',
                         f'outgoing {r["kind"]} {k} was waiting when the connection was lost at '
@@ -287,7 +298,7 @@ def oracle(cfg, evs, summ, ptimeout):
             # max_send_delay at the very instant of the teardown (C15: TaskTimeout + abort)
             overrun = ptimeout is not None and r['done_at'] is not None \
                 and r['done_at'] >= r['arrived'] + ptimeout
-            if r['kind'] == 'K' and r['outcome'] == 'returned' \
+            if r['kind'] == 'K' and r['outcome'] == 'returned' and r['done_at'] == summ['lost_at'] \
                     and r['done_at'] == r['start'] + summ['max_send_delay']:
                 overrun = True
             if not overrun:
